@@ -17,39 +17,66 @@ def font_variants():
     """name -> (font dictionary factory(alloc) -> dict, bytes per code)"""
 
     def std(base):
-        return lambda alloc: docs.std_font(base)
+        return lambda alloc, shared: docs.std_font(base)
 
     def diffs(glyphs, widths_base):
-        def f(alloc):
+        def f(alloc, shared):
             fd = alloc({b"Type": Name(b"FontDescriptor"), b"FontName": Name(b"Shared"), b"Flags": 32, b"FontBBox": [0, -200, 1000, 900], b"ItalicAngle": 0, b"Ascent": 800, b"Descent": -200, b"CapHeight": 700, b"StemV": 80, b"MissingWidth": 300})
             return {b"Type": Name(b"Font"), b"Subtype": Name(b"Type1"), b"BaseFont": Name(b"Shared"), b"FirstChar": 65, b"LastChar": 70, b"Widths": [widths_base + 25 * i for i in range(6)], b"FontDescriptor": fd, b"Encoding": {b"Type": Name(b"Encoding"), b"BaseEncoding": Name(b"WinAnsiEncoding"), b"Differences": [65] + [Name(g) for g in glyphs]}}
 
         return f
 
-    def std_named_custom(alloc):
+    def std_named_custom(alloc, shared):
         # a font that calls itself Helvetica but brings its own encoding differences
         return {b"Type": Name(b"Font"), b"Subtype": Name(b"Type1"), b"BaseFont": Name(b"Helvetica"), b"Encoding": {b"Type": Name(b"Encoding"), b"Differences": [65, Name(b"Z"), Name(b"Y"), Name(b"X")]}}
 
-    def tounicode_tt(alloc):
+    def tounicode_tt(alloc, shared):
         tu = alloc(docs.content_stream(TOUNICODE, flate=True))
         fd = alloc({b"Type": Name(b"FontDescriptor"), b"FontName": Name(b"Arial"), b"Flags": 32, b"FontBBox": [0, -210, 1000, 900], b"ItalicAngle": 0, b"Ascent": 905, b"Descent": -212, b"CapHeight": 716, b"StemV": 80})
         return {b"Type": Name(b"Font"), b"Subtype": Name(b"TrueType"), b"BaseFont": Name(b"Arial"), b"FirstChar": 65, b"LastChar": 70, b"Widths": [600, 610, 620, 630, 640, 650], b"FontDescriptor": fd, b"ToUnicode": tu, b"Encoding": Name(b"MacRomanEncoding")}
 
-    def identity_h(alloc):
+    def identity_h(alloc, shared):
         tu = alloc(docs.content_stream(TOUNICODE16))
         fd = alloc({b"Type": Name(b"FontDescriptor"), b"FontName": Name(b"Composite"), b"Flags": 4, b"FontBBox": [0, -200, 1000, 800], b"ItalicAngle": 0, b"Ascent": 800, b"Descent": -200, b"CapHeight": 700, b"StemV": 80})
         d = alloc({b"Type": Name(b"Font"), b"Subtype": Name(b"CIDFontType2"), b"BaseFont": Name(b"Composite"), b"CIDSystemInfo": {b"Registry": Str(b"Adobe"), b"Ordering": Str(b"Identity"), b"Supplement": 0}, b"FontDescriptor": fd, b"DW": 750, b"W": [65, [500, 600], 70, 72, 800]})
         return {b"Type": Name(b"Font"), b"Subtype": Name(b"Type0"), b"BaseFont": Name(b"Composite"), b"Encoding": Name(b"Identity-H"), b"DescendantFonts": [d], b"ToUnicode": tu}
 
     def cjk(cmap, ordering):
-        def f(alloc):
+        def f(alloc, shared):
             fd = alloc({b"Type": Name(b"FontDescriptor"), b"FontName": Name(b"Ryumin-Light"), b"Flags": 6, b"FontBBox": [0, -200, 1000, 900], b"ItalicAngle": 0, b"Ascent": 880, b"Descent": -120, b"CapHeight": 700, b"StemV": 80})
             d = alloc({b"Type": Name(b"Font"), b"Subtype": Name(b"CIDFontType0"), b"BaseFont": Name(b"Ryumin-Light"), b"CIDSystemInfo": {b"Registry": Str(b"Adobe"), b"Ordering": Str(ordering), b"Supplement": 2}, b"FontDescriptor": fd, b"DW": 1000})
             return {b"Type": Name(b"Font"), b"Subtype": Name(b"Type0"), b"BaseFont": Name(b"Ryumin-Light"), b"Encoding": Name(cmap), b"DescendantFonts": [d]}
 
         return f
 
+    def unknown_base(glyphs):
+        # a legal base encoding the library has no table for, plus Differences
+        def f(alloc, shared):
+            return {b"Type": Name(b"Font"), b"Subtype": Name(b"Type1"), b"BaseFont": Name(b"Expert"), b"FirstChar": 65, b"LastChar": 70, b"Widths": [500] * 6, b"Encoding": {b"Type": Name(b"Encoding"), b"BaseEncoding": Name(b"MacExpertEncoding"), b"Differences": [65] + [Name(g) for g in glyphs]}}
+
+        return f
+
+    def no_encoding(alloc, shared):
+        # neither /Encoding nor a standard-14 name: falls back to the shared standard table
+        return {b"Type": Name(b"Font"), b"Subtype": Name(b"Type1"), b"BaseFont": Name(b"NoEncoding"), b"FirstChar": 65, b"LastChar": 70, b"Widths": [520] * 6}
+
+    def shared_descendant(which):
+        # two Type0 fonts of one document that share their descendant CIDFont object but differ in /ToUnicode
+        def f(alloc, shared):
+            if "desc" not in shared:
+                fd = alloc({b"Type": Name(b"FontDescriptor"), b"FontName": Name(b"SharedCID"), b"Flags": 4, b"FontBBox": [0, -200, 1000, 800], b"ItalicAngle": 0, b"Ascent": 800, b"Descent": -200, b"CapHeight": 700, b"StemV": 80})
+                shared["desc"] = alloc({b"Type": Name(b"Font"), b"Subtype": Name(b"CIDFontType2"), b"BaseFont": Name(b"SharedCID"), b"CIDSystemInfo": {b"Registry": Str(b"Adobe"), b"Ordering": Str(b"Identity"), b"Supplement": 0}, b"FontDescriptor": fd, b"DW": 600})
+            tu = TOUNICODE16 if which == "A" else TOUNICODE16.replace(b"<0058>", b"<005A>").replace(b"<00590059>", b"<0051>")
+            return {b"Type": Name(b"Font"), b"Subtype": Name(b"Type0"), b"BaseFont": Name(b"SharedCID"), b"Encoding": Name(b"Identity-H"), b"DescendantFonts": [shared["desc"]], b"ToUnicode": alloc(docs.content_stream(tu))}
+
+        return f
+
     return {
+        "unknown-base-diffs-A": (unknown_base(GLYPHS_A), 1),
+        "unknown-base-diffs-B": (unknown_base(GLYPHS_B), 1),
+        "no-encoding": (no_encoding, 1),
+        "type0-shared-descendant-A": (shared_descendant("A"), 2),
+        "type0-shared-descendant-B": (shared_descendant("B"), 2),
         "helvetica": (std(b"Helvetica"), 1),
         "courier": (std(b"Courier"), 1),
         "times": (std(b"Times-Roman"), 1),
@@ -91,10 +118,11 @@ def text_document(t, ctx, label):
     names = sorted(VARIANTS)
     npages = t.rint(1, 4, "doc.pages")
     fontobjs = {}
+    shared = {}
 
     def font_ref(vname):
         if vname not in fontobjs:
-            d = VARIANTS[vname][0](alloc)
+            d = VARIANTS[vname][0](alloc, shared)
             fontobjs[vname] = alloc(d)
         return fontobjs[vname]
 
